@@ -3,7 +3,7 @@
    for the binary64 instance that is compared bit-exactly with the code. *)
 From Coq Require Import ZArith QArith List Bool.
 From V Require Import Base.Num Model.StreamCore Model.Zliobaite Model.StreamCounters
-  Proofs.StreamGeneric Proofs.ZlProofs Proofs.CounterProofs.
+  Model.Biqf Proofs.StreamGeneric Proofs.StreamGenericX Proofs.ZlProofs Proofs.CounterProofs Proofs.BiqfProofs.
 Import ListNotations.
 Close Scope Q_scope.
 
@@ -65,6 +65,32 @@ Theorem C03_baselines_extra_queries_invisible :
   snd (grun (c_query_l k p) (c_update k p) s (filter is_update h)).
 Proof. intros. apply (extra_queries_invisible (c_inst k p)). apply c_query_pure. Qed.
 Print Assumptions C03_baselines_extra_queries_invisible.
+
+(* BalancedIncrementalQuantileFilter, for every quantile oracle: query_by_utility works on copies
+   of the counters and of the bounded history; the state after any history of interleaved
+   query / update calls is the state after its updates alone; results depend on the preceding
+   updates only; repeated queries repeat their result *)
+Theorem C03_biqf_extra_queries_invisible :
+  forall (F : Type) (N : Num F) (quant : Z -> list F -> F) (p : bparams) (h : list xop) (s : bstate),
+  snd (xrun (b_query quant p) (b_update p) s h) =
+  snd (xrun (b_query quant p) (b_update p) s (filter x_is_update h)).
+Proof. intros. apply (x_extra_queries_invisible (b_inst quant p)). apply b_query_pure. Qed.
+Print Assumptions C03_biqf_extra_queries_invisible.
+
+Theorem C03_biqf_results_depend_on_updates_only :
+  forall (F : Type) (N : Num F) (quant : Z -> list F -> F) (p : bparams) (h1 h2 : list xop) (xs : list F) (s : bstate),
+  fst (xrun (b_query quant p) (b_update p) s (h1 ++ XQuery xs :: h2)) =
+  fst (xrun (b_query quant p) (b_update p) s h1) ++
+  fst (b_query quant p (snd (xrun (b_query quant p) (b_update p) s (filter x_is_update h1))) xs)
+  :: fst (xrun (b_query quant p) (b_update p) (snd (xrun (b_query quant p) (b_update p) s (filter x_is_update h1))) h2).
+Proof. intros. apply (x_query_results_depend_on_updates_only (b_inst quant p)). apply b_query_pure. Qed.
+Print Assumptions C03_biqf_results_depend_on_updates_only.
+
+Theorem C03_biqf_query_idempotent :
+  forall (F : Type) (N : Num F) (quant : Z -> list F -> F) (p : bparams) (s : bstate) (xs : list F),
+  b_query quant p (snd (b_query quant p s xs)) xs = b_query quant p s xs.
+Proof. intros. apply (x_query_idempotent (b_inst quant p)). apply b_query_pure. Qed.
+Print Assumptions C03_biqf_query_idempotent.
 
 (* non-vacuity: a split manager whose query really draws random numbers *)
 Example C03_nonvacuous :
